@@ -1,5 +1,5 @@
 // Panics of the real code are kept as proof obligations: assert!/debug_assert_eq! -> vassert (requires the condition),
 // unimplemented!/panic! -> vpanic (requires false).
-pub fn vassert(b: bool) requires b {}
+pub const fn vassert(b: bool) requires b {}
 #[verifier::external_body]
 pub fn vpanic() -> ! requires false { panic!() }
